@@ -171,10 +171,10 @@ func init() {
 	reg(&PropSpec{
 		ID: "C20",
 		Harnesses: func(tier string) []HarnessSpec {
-			hs := []HarnessSpec{{Name: "provider-history", Pkg: "cluster", Func: "ZZ_C20_Provider", Params: pm("U", tierSel(tier, 3, 4), "N", 3, "SHARE", 1),
+			hs := []HarnessSpec{{Name: "provider-history", Pkg: "cluster", Func: "ZZ_C20_Provider", Params: pm("U", tierSel(tier, 3, 4), "N", 3, "SHARE", 1, "ROT", 1),
 				Witnesses: []string{"unreachable-member", "unreachable-non-member", "two-members-on-the-reported-address"}, Deadline: 30 * time.Minute}}
 			if tier == "thorough" {
-				hs = append(hs, HarnessSpec{Name: "provider-history-longer", Pkg: "cluster", Func: "ZZ_C20_Provider", Params: pm("U", 3, "N", 4, "SHARE", 1),
+				hs = append(hs, HarnessSpec{Name: "provider-history-longer", Pkg: "cluster", Func: "ZZ_C20_Provider", Params: pm("U", 3, "N", 4, "SHARE", 1, "ROT", 1),
 					Witnesses: []string{"unreachable-member", "unreachable-non-member"}, Deadline: 40 * time.Minute})
 			}
 			return hs
@@ -182,7 +182,7 @@ func init() {
 		Bounds: func(tier string) string {
 			return fmt.Sprintf("histories of %d messages (handshake from any peer / member list with symbolic contents / RemoteUnreachableEvent for any member address or an unknown address, delivered to the provider's event-stream child handler and forwarded by it) over a universe of %d members%s", 3, tierSel(tier, 3, 4), map[string]string{"quick": "", "thorough": "; and histories of 4 messages over 3 members (4 messages over 4 members did not finish in 30 minutes and is not registered)"}[tier])
 		},
-		Outside:     []string{"the Started handler (zeroconf announce/browse, ping repeater); the event-stream child's handler is driven directly (its subscription to the event stream is not)", "which of two members sharing one address a report removes (either is accepted; exactly one must go)", "map iteration order: one order explored"},
+		Outside:     []string{"the Started handler (zeroconf announce/browse, ping repeater); the event-stream child's handler is driven directly (its subscription to the event stream is not)", "which of two members sharing one address a report removes (either is accepted; exactly one must go)", "map iteration order: insertion order, and for the last operation of a history every rotation of it (the orders Go produces for a small map); other permutations are not explored"},
 		Assumptions: seqAssume("SelfManaged built by its producer on a Cluster value with a bare engine, a recording agent process and a recording remote; its own member added as Started does; messages delivered by calling Receive"),
 	})
 
@@ -391,7 +391,7 @@ func init() {
 	reg(&PropSpec{
 		ID: "C19",
 		Harnesses: func(tier string) []HarnessSpec {
-			return []HarnessSpec{{Name: "multi-agent-history", Pkg: "cluster", Func: "ZZ_C19", Preempt: 0, Params: pm("N", tierSel(tier, 2, 3), "K", 3),
+			return []HarnessSpec{{Name: "multi-agent-history", Pkg: "cluster", Func: "ZZ_C19", Preempt: 0, Params: pm("N", tierSel(tier, 2, 3), "K", 3, "ROT", 1),
 				Witnesses: []string{"remote-activation", "duplicate-activation", "deactivate", "join-with-active-actors", "leave-with-hosted-actor", "cluster-spawn", "deactivate-of-an-inactive-actor"}, Deadline: 60 * time.Minute}}
 		},
 		Bounds: func(tier string) string {
